@@ -194,6 +194,7 @@ static struct root roots[] = {
     { "DpT", C4_DpT_parse_json_as_root, C4_DpT_verify_as_root_with_identifier, C4_DpT_verify_as_root_with_identifier_and_size },
     { "Dp1", C4_Dp1_parse_json_as_root, C4_Dp1_verify_as_root_with_identifier, C4_Dp1_verify_as_root_with_identifier_and_size },
     { "Multi", C4_Multi_parse_json_as_root, C4_Multi_verify_as_root_with_identifier, C4_Multi_verify_as_root_with_identifier_and_size },
+    { "Opt", C4_Opt_parse_json_as_root, C4_Opt_verify_as_root_with_identifier, C4_Opt_verify_as_root_with_identifier_and_size },
     { "Fix", C4_Fix_parse_json_as_root, C4_Fix_verify_as_root_with_identifier, C4_Fix_verify_as_root_with_identifier_and_size },
     { 0, 0, 0, 0 }
 };
